@@ -370,7 +370,102 @@ def read_while_open(chk):
         chk.undecided(rule, fi.qual, "no read through a loader built on a `with open(...)` stream found", node=fi.node, aux=True)
 
 
+ROOT_LOG_CALLS = {"ext:logging." + n for n in ("debug", "info", "warning", "warn", "error", "critical", "exception", "log")}
+
+
+def logging_initialised_first(chk):
+    """O13.8: nothing logs through the ROOT logger functions (logging.debug(...), logging.info(...), ...) before
+    logging.basicConfig has run: those functions install a default stderr handler when the root logger has none, after
+    which basicConfig(level=..., handlers=...) is a no-op (library fact, cross-read) -- the configured log target and
+    level are then ignored and the error of a failing service does not reach the runtime log"""
+    prog = chk.program
+    rule = "O13.8"
+    run = prog.func(RUN)
+    fi = None
+    for n in ast.walk(run.node):
+        if isinstance(n, ast.Call):
+            r = prog.resolve(run.module, n.func)
+            f = prog.functions.get(r) if r else None
+            if f is not None and any(isinstance(c, ast.Call) and prog.resolve(f.module, c.func) == "ext:logging.basicConfig" for c in ast.walk(f.node)):
+                fi = f
+    if fi is None:
+        chk.undecided(rule, run.qual, "run() calls no function that configures logging through logging.basicConfig", node=run.node, aux=True)
+        return
+    # library fact
+    import os
+    import sysconfig
+
+    std = sysconfig.get_paths().get("stdlib")
+    confirmed = None
+    try:
+        with open(os.path.join(std, "logging", "__init__.py")) as f:
+            tree = ast.parse(f.read())
+        for n in tree.body:
+            if isinstance(n, ast.FunctionDef) and n.name == "debug":
+                confirmed = any(isinstance(c, ast.Call) and getattr(c.func, "id", None) == "basicConfig" for c in ast.walk(n))
+    except (OSError, SyntaxError, TypeError):
+        pass
+    chk.facts["logging.debug()/info()/... call basicConfig() when the root logger has no handlers"] = confirmed
+    inline = lambda f, ct: f.cls is None and f.module is fi.module and f is not fi  # noqa: E731
+    ok = True
+    n_paths = 0
+    for o in Interp(prog, fi, inline=inline).run():
+        evs = o.path.events
+        cfg = [i for i, e in enumerate(evs) if e[0] == "call" and e[1][1] == ("glob", "ext:logging.basicConfig")]
+        if not cfg:
+            continue
+        n_paths += 1
+        chk.count()
+        early = [e[1] for e in evs[: cfg[0]] if e[0] == "call" and e[1][1][0] == "glob" and e[1][1][1] in ROOT_LOG_CALLS]
+        kw = dict((k, v) for k, v in evs[cfg[0]][1][3] if k)
+        if early and kw.get("force") != ("const", True):
+            chk.bad(rule, fi.qual, "%s runs before logging.basicConfig: it installs a default stderr handler, so the configured handler / level of basicConfig are ignored and the runtime log stays empty" % show(strip_sites(early[0][1])), node=fi.node, stmt="root-log-before-basicConfig")
+            ok = False
+    # ... and run() itself calls it before it logs anything or starts the runtime
+    body_calls = [n for n in ast.walk(run.node) if isinstance(n, ast.Call)]
+    first_cfg = min((n.lineno for n in body_calls if prog.resolve(run.module, n.func) == fi.qual), default=None)
+    for n in body_calls:
+        r = prog.resolve(run.module, n.func) or ""
+        if first_cfg is not None and n.lineno < first_cfg and (r in ROOT_LOG_CALLS or (isinstance(n.func, ast.Attribute) and n.func.attr in ("debug", "info", "warning", "error", "critical", "exception") and "log" in util.unparse(n.func.value).lower())):
+            chk.bad(rule, run.qual, "run() logs (%s) before logging is initialised" % util.unparse(n.func), node=n, stmt="log-before-init")
+            ok = False
+    if ok and n_paths:
+        chk.ok(rule, fi.qual, "no root-logger call precedes logging.basicConfig on any of the %d configuring paths; run() initialises logging first" % n_paths, node=fi.node)
+
+
+def module_registered_before_exec(chk):
+    """O13.9: a Python configuration is registered in sys.modules under its name BEFORE its source is executed (what the
+    import system does): code in the configuration that looks its own module up while executing -- dataclasses under
+    `from __future__ import annotations`, pickling, sys.modules[__name__] -- otherwise fails and the daemon exits"""
+    prog = chk.program
+    rule = "O13.9"
+    fi = prog.func(PY_LOAD)
+    ok = True
+    n = 0
+    for o in Interp(prog, fi).run():
+        evs = o.path.events
+        ex = [i for i, e in enumerate(evs) if e[0] == "call" and e[1][1][0] == "attr" and e[1][1][2] == "exec_module"]
+        if not ex:
+            continue
+        n += 1
+        chk.count()
+        mod = evs[ex[0]][1][2][0] if evs[ex[0]][1][2] else None
+        reg = [i for i, e in enumerate(evs) if e[0] == "store" and e[1][0] == "sub" and e[1][1] == ("glob", "ext:sys.modules") and e[2] == mod]
+        if not reg:
+            chk.bad(rule, fi.qual, "the configuration module is executed without being registered in sys.modules", node=fi.node, stmt="module-not-registered")
+            ok = False
+        elif reg[0] > ex[0]:
+            chk.bad(rule, fi.qual, "the configuration module is registered in sys.modules only AFTER it has been executed: a configuration that looks up its own module while it runs fails to load", node=fi.node, stmt="module-registered-late")
+            ok = False
+    if ok and n:
+        chk.ok(rule, fi.qual, "sys.modules[name] = module precedes exec_module(module)", node=fi.node)
+    elif ok:
+        chk.undecided(rule, fi.qual, "no exec_module call found in the Python configuration loader", node=fi.node, aux=True)
+
+
 def run(chk):
+    chk.guard("O13.8", "initialise_logging", logging_initialised_first, chk)
+    chk.guard("O13.9", PY_LOAD, module_registered_before_exec, chk)
     chk.guard("O13.7", YAML_LOAD, read_while_open, chk)
     chk.guard("O13.6", "configure_logging", runtime_log, chk)
     chk.guard("O13.1", RUN, startup, chk)
